@@ -1,4 +1,4 @@
-(* C12, repair variant (switched off in Model.v: own_place_class = false): with class and name of the configuration
+(* C12, since a8a9b5b (Model.v: own_place_class = true): with class and name of the configuration
    lookup taken from one place of the prior, EVERY prior -- shared or not -- held by a Model (directly or as a tuple
    member) is configured under the class of that Model and its own attribute / member name. *)
 From Coq Require Import List String Bool Arith PeanoNat Lia ZArith QArith.
@@ -47,7 +47,7 @@ Section H.
   Qed.
 End H.
 
-(* the shared prior of C12_config_own_refuted: its last place is KN.s, and the holder of that place is KN *)
+(* the shared prior of C12_config_own_legacy_refuted: its last place is KN.s, and the holder of that place is KN *)
 Lemma config_one_place_example :
   last_path Q 0 ex_shared = Some ["s"] /\ holder_class Q ["s"] ex_shared = Some "KN" /\ cfg_name ["s"] = Ok "s" /\
   holder_class Q ["inner"; "a"] ex_shared = Some "K2".
